@@ -130,6 +130,32 @@ func loadWorld(repo string, extraEnv ...string) (*World, error) {
 	if w.JSON, err = need("stdlib/json"); err != nil {
 		return nil, err
 	}
+	// helper map for pattern searches (see containsNode)
+	gHelpers = map[*ast.CallExpr]*ast.FuncDecl{}
+	decls := map[*types.Func]*ast.FuncDecl{}
+	for _, p := range pkgs {
+		for _, f := range p.Syntax {
+			for _, d := range f.Decls {
+				if fd, ok := d.(*ast.FuncDecl); ok && fd.Body != nil && !ast.IsExported(fd.Name.Name) {
+					if fn, ok := p.TypesInfo.Defs[fd.Name].(*types.Func); ok {
+						decls[fn] = fd
+					}
+				}
+			}
+		}
+	}
+	for _, p := range pkgs {
+		for _, f := range p.Syntax {
+			ast.Inspect(f, func(n ast.Node) bool {
+				if call, ok := n.(*ast.CallExpr); ok {
+					if fd := decls[Callee(p, call)]; fd != nil {
+						gHelpers[call] = fd
+					}
+				}
+				return true
+			})
+		}
+	}
 	return w, nil
 }
 
@@ -524,3 +550,15 @@ func readRepoFile(w *World, rel string) (string, error) {
 type pkgT = *packages.Package
 
 func strconvUnquote(s string) (string, error) { return strconv.Unquote(s) }
+
+// lessForm returns a comparison oriented as < or <= (`a > b` is `b < a`), so
+// that rules accept a mirrored spelling of the same test.
+func lessForm(b *ast.BinaryExpr) (token.Token, ast.Expr, ast.Expr) {
+	switch b.Op {
+	case token.GTR:
+		return token.LSS, b.Y, b.X
+	case token.GEQ:
+		return token.LEQ, b.Y, b.X
+	}
+	return b.Op, b.X, b.Y
+}
